@@ -394,6 +394,15 @@ pub fn expr_alts() -> Vec<EAlt> {
             bin("Multiply", "*", 4, 4, 3, subscript(var("arr"), num("3")), var("q")),
         )
     }));
+    // the array update under every operator the definition lists (and two it does not list)
+    for kind in ["Subtract", "Divide", "Modulo", "ShiftLeft", "ShiftRight", "BitwiseAnd", "BitwiseOr", "BitwiseXor", "Or", "Power"] {
+        let b = BINOPS.iter().find(|b| b.0 == kind).copied();
+        if let Some((k, op, prec, lc, rc)) = b {
+            v.push(atom(&format!("atom.arr_update_{}", k), move |_| {
+                bin("Assign", "=", 14, 13, 14, subscript(var("arr"), num("2")), bin(k, op, prec, lc, rc, subscript(var("arr"), num("2")), var("q")))
+            }));
+        }
+    }
     v.push(atom("atom.arr_compound", |_| bin("AssignAdd", "+=", 14, 13, 14, subscript(var("arr"), num("0")), var("q"))));
     v.push(atom("atom.arr_other_index", |_| {
         bin(
